@@ -767,7 +767,7 @@ def direct_pairs(H):
         for attr, hosts in sorted(H[region].items()):
             for host in hosts:
                 cls = target_class(attr, host)
-                if cls is not None and not attr.endswith('class-names'):
+                if cls is not None:
                     out.setdefault(cls, {'master': [], 'body': []})[region].append((attr, host))
     return out
 
@@ -845,9 +845,10 @@ def flatten(view, T, marker_index):
             sid = e[1].get(SID)
             for a, v in sorted(e[1].items()):
                 pa = P(a)
-                if pa in schema and pa not in listy and v:
+                if pa in schema and v:
                     cls = target_class(pa, P(e[0]), def_class(owner) if owner is not None else None)
-                    out.append(((region, sid, pa, 0), code[pa], v, CLASS_CODE.get(cls, 0)))
+                    for i, tok in enumerate([x for x in XML_SPACE.split(v) if x] if pa in listy else [v]):
+                        out.append(((region, sid, pa, i), code[pa], tok, CLASS_CODE.get(cls, 0)))
         return out
 
     def ref_toks(rs):
@@ -886,8 +887,8 @@ def observe(trip, T, keys, marker_index, before, mem, after):
         for e in walk(tree):
             for a, v in sorted(e[1].items()):
                 pa = P(a)
-                if pa in schema and pa not in listy and v:
-                    out.append(enc_str(v))
+                if pa in schema and v:
+                    out += [enc_str(x) for x in ([y for y in XML_SPACE.split(v) if y] if pa in listy else [v])]
         return out
 
     def mi(t):
